@@ -7,6 +7,7 @@ pub mod c06;
 pub mod c10;
 pub mod c11;
 pub mod c12;
+pub mod c15;
 pub mod c20;
 pub mod histprops;
 
@@ -44,7 +45,7 @@ pub fn report_as(running: &str, class: Class) -> String {
     let ps = props_of(class);
     // composite properties: their statement covers everything their check compares
     // (HTTP == store operation; import target == source; content; isolation)
-    if ["C04", "C06", "C10", "C12", "C13", "C20"].contains(&running) && !matches!(class, Class::Panic) {
+    if ["C02", "C03", "C04", "C06", "C10", "C11", "C12", "C13", "C14", "C15", "C16", "C17", "C18", "C19", "C20"].contains(&running) {
         return running.to_string();
     }
     if ps.contains(&running) {
@@ -52,4 +53,85 @@ pub fn report_as(running: &str, class: Class) -> String {
     } else {
         ps[0].to_string()
     }
+}
+
+/// The common shape of a check: replay file / replay tier / sharded generation /
+/// evidence. `repeats` = how often a replay is re-run (schedule-dependent cases).
+#[allow(clippy::too_many_arguments)]
+pub fn simple_run<T>(
+    prop: &'static str,
+    tier: crate::runner::Tier,
+    seed: u64,
+    replay: Option<&std::path::Path>,
+    cases: (u32, u32),
+    shrink_iters: u32,
+    strategy: fn() -> proptest::strategy::BoxedStrategy<T>,
+    run_case: fn(&T) -> Result<crate::runner::CaseInfo, crate::model::Fail>,
+    rule: &str,
+    assumptions: Vec<String>,
+    repeats: usize,
+) -> i32
+where
+    T: std::fmt::Debug + Clone + serde::Serialize + serde::de::DeserializeOwned + Send + 'static,
+{
+    use crate::runner::*;
+    let started = std::time::Instant::now();
+    let rep = |case: &T| -> Result<CaseInfo, crate::model::Fail> {
+        let mut last = run_case(case)?;
+        for _ in 1..repeats.max(1) {
+            last = run_case(case)?;
+        }
+        Ok(last)
+    };
+    let verdict = |path: &std::path::Path, r: Result<CaseInfo, crate::model::Fail>, quiet_ok: bool| -> Option<i32> {
+        match r {
+            Ok(_) => {
+                if !quiet_ok {
+                    println!("replay {} passes", path.display());
+                }
+                None
+            }
+            Err(f) if f.msg.starts_with(INFRA) => {
+                eprintln!("INFRASTRUCTURE: {}", f.msg);
+                Some(2)
+            }
+            Err(f) => {
+                println!("failure class={:?}: {}", f.class, f.msg);
+                println!("VIOLATION property={} replay={}", report_as(prop, f.class), path.display());
+                Some(1)
+            }
+        }
+    };
+    if let Some(path) = replay {
+        let case: T = match load_replay(path) {
+            Ok(c) => c,
+            Err(e) => {
+                eprintln!("cannot load replay: {e}");
+                return 2;
+            }
+        };
+        return verdict(path, rep(&case), false).unwrap_or(0);
+    }
+    for path in replay_files(prop) {
+        if let Ok(case) = load_replay::<T>(&path) {
+            if let Some(code) = verdict(&path, rep(&case), true) {
+                return code;
+            }
+        }
+    }
+    let n = match tier {
+        Tier::Quick => cases.0,
+        Tier::Thorough => cases.1,
+    };
+    let out = run_sharded(prop, seed, n, shrink_iters, strategy, run_case);
+    let report = Report {
+        prop,
+        tier,
+        seed,
+        level: "exploration",
+        rule,
+        assumptions,
+        extra: serde_json::json!({}),
+    };
+    finish(&report, out, started, |c| report_as(prop, c))
 }
